@@ -44,6 +44,11 @@ func TextConsumer() Consumer {
 
 		// If the buffer is empty, no need to unmarshal it, which causes a panic.
 		if len(b) == 0 {
+			// an empty text is still stored, so that a reused string destination does not keep a stale value
+			if v := reflect.ValueOf(data); v.Kind() == reflect.Ptr && !v.IsNil() && v.Elem().Kind() == reflect.String {
+				v.Elem().SetString("")
+			}
+
 			return nil
 		}
 
